@@ -317,6 +317,19 @@ def r02d(run, C, names):
         fwd = {k for k, v in kws} | ({"const"} if any(
             isinstance(c, ast.Call) and call_attr(c) == "update" and any(k.arg == "const" for k in c.keywords)
             for c in walk_shallow(f.node)) else set())
+        # None is a legal constant: const may only be filtered by the `unprovided` sentinel
+        for comp in walk_shallow(f.node):
+            if isinstance(comp, ast.DictComp):
+                src = comp.generators[0].iter
+                kws_here = [k.arg for c2 in ast.walk(src) if isinstance(c2, ast.Call) for k in c2.keywords]
+                if "const" in kws_here:
+                    none_filter = any(isinstance(i, ast.Compare) and any(isinstance(o, ast.IsNot) for o in i.ops)
+                                      and isinstance(i.comparators[0], ast.Constant) and i.comparators[0].value is None
+                                      for g_ in comp.generators for cond in g_.ifs for i in ast.walk(cond))
+                    run.check("R02d", f, f"{q}: `const` is not dropped by the `is not None` filter", not none_filter,
+                              construct=f"{q} filters const by None", message=f"{q} forwards `const` through the "
+                              f"comprehension that drops None values: Field(const=None) loses its constraint",
+                              necessity="a declared const=None accepts every value", node=comp)
         lost = (expected & params) - fwd
         run.check("R02d", f, f"{q} forwards all constraint keywords it accepts", not lost,
                   construct=f"{q} drops {sorted(lost)}", message=f"{q} accepts but never forwards {sorted(lost)}",
